@@ -197,7 +197,7 @@ func (e *Effect) computeRegionTypes() {
 	// cache regions: the value types of every instantiation of lru.Cache
 	region = e.regionC
 	for f := range e.p.AllFns {
-		if o := f.Origin(); o != nil && strings.HasSuffix(o.String(), "internal/lru.Cache).Add") && len(f.Params) == 3 {
+		if isLruMethod(f, "Add") && f.Origin() != nil && len(f.Params) == 3 {
 			walk(f.Params[2].Type())
 		}
 	}
@@ -995,7 +995,7 @@ func (a *fa) call(c ssa.CallInstruction, res ssa.Value) bool {
 		setres(fact{X: x})
 		return ch
 	}
-	if origin := sc.Origin(); strings.HasSuffix(fullName(sc), "internal/lru.Cache).Get") || (origin != nil && strings.HasSuffix(origin.String(), "internal/lru.Cache).Get")) {
+	if isLruMethod(sc, "Get") {
 		// fall through to the summary, then add CACHE below
 		defer func() {
 			if res != nil {
@@ -1419,4 +1419,11 @@ func (e *Effect) sortedReports() []*effReport {
 		return out[i].site.desc < out[j].site.desc
 	})
 	return out
+}
+
+// isLruMethod reports whether f is (an instance of) the named method of the
+// resolver-lifetime lru cache type.
+func isLruMethod(f *ssa.Function, method string) bool {
+	n := fullName(f)
+	return strings.Contains(n, "internal/lru.Cache") && strings.HasSuffix(n, ")."+method)
 }
